@@ -267,6 +267,18 @@ impl UnixServer {
     }
 }
 
+#[cfg(feature = "verif")]
+impl UnixServer {
+    /// Verification seam: run the (private) client session over any transport.
+    pub async fn verif_client_session<T: tokio::io::AsyncWrite + tokio::io::AsyncRead + Unpin>(
+        stream: T,
+        command_tx: CommandSender,
+        signal_rx: SignalReceiver,
+    ) {
+        Self::spawn_client_session(stream, command_tx, signal_rx).await
+    }
+}
+
 impl Service<UnixServerConfig> for UnixServer {
     fn new(config: UnixServerConfig) -> Self
     where
